@@ -215,7 +215,8 @@ const opaqueStr = "\x00OPAQUE\x00"
 // opaque string (only ever used for error/log messages).
 func (e *Exec) sprintf(f Str, args Slice) Value {
 	if !f.Concrete() {
-		e.cut("unsupported-symbolic:Sprintf format")
+		// a format string built from data (rjust builds "%<width>s"): enumerate its few feasible values
+		f = Str{s: e.concretizeStr(f, 24)}
 	}
 	allConcrete := true
 	na := make([]interface{}, len(args.v))
@@ -536,6 +537,7 @@ func init() {
 	conc("Ceil", math.Ceil, OFCeil)
 	conc("Floor", math.Floor, OFFloor)
 	conc("Trunc", math.Trunc, OFTrunc)
+	conc("Round", math.Round, OFRoundNA)
 	conc("Abs", math.Abs, OConst)
 	conc("Sqrt", math.Sqrt, OConst)
 	conc("Log10", math.Log10, OConst)
